@@ -5,8 +5,9 @@
 (* tokens none/&R/&U, weights, comments before / inside / behind the         *)
 (* statement, metadata comments, internal labels, underscores, case          *)
 (* variants), each block with or without a TRANSLATE table, a CHARACTERS     *)
-(* block (followed by a SETS block) at each position of CharsAt (0 = none,   *)
-(* 1 = before the TREES blocks, 2 = behind them).  TLC checks that the route definitions agree pairwise   *)
+(* blocks of different data types (STANDARD and DNA, one followed by a SETS  *)
+(* block) at each position of CharsAt (0 = none, 1 = standard, dna, dna     *)
+(* before the TREES blocks, 2 = dna, standard, dna behind them).  TLC checks that the route definitions agree pairwise   *)
 (* on every such document under every option set, and dumps the documents    *)
 (* for the replay against the real routes.                                   *)
 EXTENDS ReadRoutes
@@ -63,13 +64,17 @@ MkDoc(specs, chars) ==
         \* one matrix row per taxon; "A" is the case variant of "a" (one taxon unless labels are case sensitive),
         \* a matrix with a row for each would not be a valid document
         mt == SelectSeq(taxa, LAMBDA x : x # "A")
-        cb == [kind |-> "chars", title |-> "cm1", rows |-> [j \in 1..Len(mt) |-> [lab |-> mt[j], seq |-> IF j % 2 = 1 THEN "ACGT" ELSE "A-GT"]]]
-        \* a SETS block behind the matrix (only the routes that read characters parse it)
-        sb(allLast) == [kind |-> "sets", link |-> "",
+        \* CHARACTERS blocks of different data types; rows differ between blocks, so a wrong selection shows
+        cb(title, type, r1, r2) == [kind |-> "chars", title |-> title, type |-> type,
+                                    rows |-> [j \in 1..Len(mt) |-> [lab |-> mt[j], seq |-> IF j % 2 = 1 THEN r1 ELSE r2]]]
+        \* a SETS block behind a matrix (only the routes that read characters parse it)
+        sb(allLast, link) == [kind |-> "sets", link |-> link,
                         charsets |-> IF allLast THEN <<[name |-> "first", spec |-> "1-2"], [name |-> "every", spec |-> "ALL"]>>
                                      ELSE <<[name |-> "every", spec |-> "ALL"], [name |-> "rest", spec |-> "2-."]>>]
+        before1 == <<cb("cm0", "standard", "0101", "0-11"), cb("cm1", "dna", "ACGT", "A-GT"), sb(TRUE, "cm1"), cb("cm2", "dna", "TTGA", "T?GA")>>
+        behind2 == <<cb("cm1", "dna", "ACGT", "A-GT"), sb(FALSE, "cm1"), cb("cm2", "standard", "0101", "0-11"), cb("cm3", "dna", "TTGA", "T?GA")>>
     IN [taxa |-> taxa,
-        blocks |-> CASE chars = 0 -> tb [] chars = 1 -> <<cb, sb(TRUE)>> \o tb [] chars = 2 -> tb \o <<cb, sb(FALSE)>>]
+        blocks |-> CASE chars = 0 -> tb [] chars = 1 -> before1 \o tb [] chars = 2 -> tb \o behind2]
 
 \* two steps, so that TLC's workers share the work: the initial states only choose the block
 \* specifications (doc = NoDoc); the one successor of each is the document itself
